@@ -27,7 +27,14 @@ set_option linter.unusedSimpArgs false
     internalDescribe (type switch)                 → `internalDescribe` (one arm per case; Callable / Init are outside `Ty`)
     describeVariantType                            → the `.variant` arm + `variantTail`; the member loop with its early return → `descVar`
                                                      (`addUndef` = "original is an Optional": `CopyAppend(ts, Undef)`)
-    describeTypeAliasType                          → the `.data` / `.richData` arms: `internalDescribe(resolved Variant, alias, …)` with the
+    USER-DEFINED ALIASES.  `Ty` has no alias constructor (the lattice model sees aliases expanded).  In THIS model a ONE-MEMBER Variant
+      term `.variant [t]` stands for a user alias whose resolved type is `t`: the Go constructors cannot build a one-member Variant
+      (`NewVariantType(t)` answers `t`), so the term is free, and it is neutral for `asg` on either side (`asgAnyL [t] b = asg t b`,
+      `asgAllR a [t] = asg a t`) exactly as `GuardedIsAssignable` resolves an alias.  The driver reads `(alias T)` as `.variant [T]` for the
+      structure ops and prints payloads with the aliases expanded (as the harness encoder does).  An aliased ACTUAL type is "another
+      kind" for every container arm (`actual.(*types.StructType)` fails on a `*TypeAliasType`) — which the term gives for free.
+    describeTypeAliasType                          → the `.variant [t]` arm (user alias: `internalDescribe(resolved, alias, actual, path)`) and
+                                                     the `.data` / `.richData` arms: `internalDescribe(resolved Variant, alias, …)` with the
                                                      resolved Variant's members inlined (`dataMembers` / `richMembers`; RichData's TypeSet and
                                                      Deferred members are the opaque atoms); `px.IsAssignable(resolved, a)` is `asg alias a`
     describeOptionalType                           → the `.optional` arm (original stays when it is an alias)
@@ -85,6 +92,7 @@ def Exp.ofTy (t : Ty) : Exp := .atom (.ty t)
 
 /-- `e.(*types.VariantType)` and its `Types()`: `inr` members, else `inl` the type itself -/
 def Exp.split : Exp → Sum Atom (List Atom)
+  | .atom (.ty (.variant [t])) => .inl (.ty (.variant [t]))      -- a user alias is no *VariantType
   | .atom (.ty (.variant ts)) => .inr (ts.map .ty)
   | .atom x => .inl x
   | .merged ms => .inr ms
@@ -441,6 +449,7 @@ def richMembers : List Atom :=
 /-- `_, ok := original.(*types.TypeAliasType)` -/
 def isAlias : Ty → Bool
   | .data | .richData => true
+  | .variant [_] => true          -- a user alias (see the header)
   | _ => false
 
 /-- `_, ok := actual.(*types.UndefType)` -/
@@ -489,6 +498,7 @@ mutual
 /-- `internalDescribe(expected, original, actual, path)` -/
 def internalDescribe (e o a : Ty) (p : Path) : Res :=
   match e with
+  | .variant [t] => internalDescribe t e a p          -- describeTypeAliasType: the alias becomes the original
   | .variant ts =>
       if asg cfg sfh e a then .ok [] else
       variantTail o a p (descVar (ts.map .ty) (isOptional o) 0 a p)
@@ -551,7 +561,7 @@ termination_by (a.w, hw e)
 decreasing_by
   all_goals simp_wf
   all_goals first
-    | (apply Prod.Lex.right; simp only [hw, hwlA_map, dataMembers, richMembers, hwlA, Atom.hw]; omega)
+    | (apply Prod.Lex.right; simp only [hw, hwl, hwlA_map, dataMembers, richMembers, hwlA, Atom.hw]; omega)
     | (apply Prod.Lex.left; simp only [Ty.w]
        first
         | exact maxAW_structItems _ _ _
